@@ -100,8 +100,13 @@ def render_doc(doc, tests, front=None, compat=False):
         fm = list(front or [])
         if doc["tfm"] != NONE:
             fm.append(f"total_timeout: {_dur(doc['tfm'])}")
+        defs = []
         if doc["skipdef"] != NONE:
-            fm += ["defaults:", f"  skip_document_code: {doc['skipdef']}"]
+            defs.append(f"  skip_document_code: {doc['skipdef']}")
+        if doc.get("tdef", NONE) != NONE:
+            defs.append(f"  timeout: {_dur(doc['tdef'])}")
+        if defs:
+            fm += ["defaults:"] + defs
         if fm:
             out += ["---"] + fm + ["---", ""]
         for tc in tests:
